@@ -635,7 +635,7 @@ def _const_flags(fn):
             return False
         rv = d[3]
         if rv["k"] == "use":
-            return rv["op"].get("k") == "const" or (rv["op"].get("k") in ("copy", "move") and not rv["op"]["place"]["proj"] and fn.locals[rv["op"]["place"]["local"]]["ty"] == "bool")
+            return rv["op"].get("k") == "const" or (rv["op"].get("k") in ("copy", "move") and rv["op"]["place"].get("ty") == "bool")
         if rv["k"] == "binop":
             return rv.get("op") in CMP_OPS
         if rv["k"] == "unop":
@@ -754,6 +754,11 @@ class Flow:
                             if v is not None and v[0] and len(v[1]) == 1 and list(v[1])[0] in (0, 1):
                                 bit = list(v[1])[0]
                                 out.add(world_set(w, ("val", ps), (True, frozenset([1 - bit if neg else bit]))))
+                            elif v is None and self.track(("val", src)):
+                                # the source is a tracked boolean place of unknown value: keep flag and source correlated
+                                for bit in (0, 1):
+                                    w2 = world_set(w, ("val", src), (True, frozenset([bit])))
+                                    out.add(world_set(w2, ("val", ps), (True, frozenset([1 - bit if neg else bit]))))
                             else:
                                 out.add(w)
                         worlds = frozenset(out)
